@@ -8,7 +8,7 @@ RULE = ("pairs of objects built by setter sequences (any interleaving of group-l
         "group-less after grouped) or parsed from files (bare keys, NULL values, re-opened sections, duplicate keys) or handed back by a layered read, and the "
         "three kinds of empty object, merged in both roles; quick: random pairs, thorough: all pairs of entry lists up to "
         "length 3+3 over {group-less,A,B}x{x,y}; observations: every listing and getter of the result, dumps of both inputs "
-        "before and after; non-trivial when both sides are non-empty and share a group; distinct by model output")
+        "before and after; histories of eight merges that share objects (one override onto two bases and onto the first again, one base under two overrides, a merge result as input of the next), every result compared with the model; non-trivial when both sides are non-empty and share a group; distinct by model output")
 
 GROUPS = [None, b"A", b"B", b"C"]
 KEYS = [b"x", b"y", b"z", b"az", b"bY"]       # az / bY: equal djb2 hashes
@@ -58,6 +58,27 @@ def pair_scenario(rng, eb, eo):
         body += ["merge 3 0 0", "getall 3", "dump 0"]; bobs += [True, True, False]      # the same object in both roles
     return Scenario(cmds + body, obs + bobs, tags=("pair",))
 
+def sequence_scenario(rng):
+    """several merges in one history that share an object: the same override merged onto two different bases (and onto
+    the first again), the same base under two overrides, and a merge result as the input of the next merge; a merge's
+    result depends on its two arguments only, not on the merges before it"""
+    def mk(o, es, t):
+        r = rng.random()
+        return (build_by_setters if r < 0.5 else build_by_file if r < 0.85 else build_by_layered_read)(rng, o, es, t)
+    # bases and overrides with few sections, so that the same section is often present in one base and absent in the other
+    def few(rng):
+        secs = rng.sample(GROUPS, min(len(GROUPS), rng.randrange(1, 3)))
+        es = []
+        for g in (secs if rng.random() < 0.5 else [None] + secs):
+            for _ in range(rng.randrange(1, 3)): es.append((g, rng.choice(KEYS)))
+        return es
+    cmds = mk(0, few(rng), b"b") + mk(1, few(rng), b"c") + mk(2, few(rng), b"o") + mk(3, few(rng), b"p")
+    obs = [False] * len(cmds)
+    body = []
+    for a, b, r in rng.sample([(0, 2, 5), (1, 2, 6), (0, 2, 7), (0, 3, 8), (1, 3, 9)], 5) + [(5, 3, 10), (2, 6, 11), (1, 2, 12)]:
+        body += ["merge %d %d %d" % (r, a, b), "getall %d" % r]
+    return Scenario(cmds + body, obs + [True] * len(body), tags=("sequence",))
+
 def oracle(s, ilines):
     # inputs unchanged: dumps of object 0 and 1 before and after the merge
     d = {}
@@ -89,6 +110,8 @@ def gen(rng, tier):
         n = 600
     for _ in range(n):
         out.append(pair_scenario(rng, rand_entries(rng), rand_entries(rng)))
+    for _ in range(n // 3):
+        out.append(sequence_scenario(rng))
     # merge with missing arguments
     out.append(Scenario(["newini 0", "merge 2 0 9", "merge 2 9 0"], tags=("null-arg",)))
     return out
